@@ -307,3 +307,66 @@ func ZZ_C15_LoaderDemotion() {
 	h.settle()
 	vfAssert("memory-tier-within-max-size", h.memCost() <= 1)
 }
+
+// ZZ_C14_DeleteVsGet: a hybrid Delete of a key that lives in the secondary tier races a hybrid Get of the same key.
+func ZZ_C14_DeleteVsGet() {
+	h := zzHybNew(1, false)
+	s := h.s
+	ttl := time.Duration(1 << 40)
+	s.Set(1, 101, 1, ttl)
+	h.settle()
+	s.Set(2, 201, 1, ttl) // demotes key 1
+	h.settle()
+	vfSetPreemptions(vfConfig("PRE", 1))
+	done := make(chan int, 2)
+	go func() { _ = s.DeleteWithSecondary(1); done <- 1 }()
+	go func() { _, _, _ = s.GetWithSecodary(1); done <- 1 }()
+	<-done
+	<-done
+	vfSetPreemptions(0)
+	h.settle()
+	vfReach("settled")
+	_, hit, _ := s.GetWithSecodary(1)
+	vfAssert("deleted-value-never-served-after-racing-get", !hit)
+}
+
+// ZZ_C14_HybridLoadingExpiry: hybrid loading cache: a value promoted from the secondary tier by a loading Get
+// keeps its deadline: it is not served at or after it, by Get, loading Get or Range.
+func ZZ_C14_HybridLoadingExpiry() {
+	h := zzHybNew(1, false)
+	s := h.s
+	ls := NewLoadingStore(s)
+	loads := 0
+	ls.Loader(func(ctx context.Context, key uint64) (Loaded[uint64], error) {
+		loads++
+		return Loaded[uint64]{Value: 900 + key, Cost: 1, TTL: time.Duration(1 << 29)}, nil
+	})
+	s.Set(1, 101, 1, time.Duration(1<<29))
+	h.settle()
+	s.Set(2, 201, 1, 0) // demotes key 1 (deadline 2^29)
+	h.settle()
+	v, err := ls.Get(context.Background(), 1) // promoted from the secondary tier, before the deadline
+	vfAssert("promoted-by-loading-get", err == nil && v == 101 && loads == 0)
+	h.settle()
+	if e, ok := s.shards[zzIndex(s, 1)].hashmap[1]; ok {
+		vfAssert("promoted-entry-keeps-its-deadline", e.expire.Load() == 1<<29)
+	}
+	d := vfI64("advance")
+	vfAssume(d >= 0)
+	vfAssume(d <= 1<<31)
+	vfClockSet(h.origin + d)
+	s.timerwheel.clock.RefreshNowCache()
+	vfReach("read")
+	gv, hit := s.Get(1)
+	vfAssert("get-no-hit-at-or-after-deadline", vfImplies(hit, vfAnd(d < 1<<29, gv == 101)))
+	seen := false
+	s.Range(func(k, v uint64) bool {
+		if k == 1 {
+			seen = true
+		}
+		return true
+	})
+	vfAssert("range-no-visit-at-or-after-deadline", vfImplies(seen, d < 1<<29))
+	lv, lerr := ls.Get(context.Background(), 1)
+	vfAssert("loading-get-no-stale-value-after-deadline", lerr == nil && vfImplies(d >= 1<<29, lv != 101))
+}
